@@ -57,6 +57,25 @@ def crl_aki(v, I):
     return None
 
 
+def crl_reason(v, I):
+    """reasonCode: the entry's own reason, either cast to its discriminant or mapped variant by variant to a constant
+    (the mapping itself is compared with RFC 5280 5.3.1 by C08.reason)"""
+    import formula as F
+    from interp import core, places, roots, PhiV, Via
+    place = "self.revoked_certs[].reason_code?"
+    if isinstance(v, Via) and v.name.startswith("as:") and core(v).r() == place and not [r for r in roots(v) if r.startswith(("op:", "call:"))]:
+        return None
+    v0 = core(v)
+    if isinstance(v0, PhiV):
+        for c, x in v0.alts:
+            if any(a[0] != "variant" or a[1] != place for a in F.atoms(c)):
+                return "reason code selected by something other than the entry's reason: %s" % F.show(c)[:120]
+            if I.concrete(x) is None:
+                return "reason code alternative is not a constant: %s" % core(x).r()[:80]
+        return None
+    return "reason code is not derived from the entry's reason (%s)" % v0.r()[:100]
+
+
 def tbs_cert_list(strict_invalidity=True):
     rc = "self.revoked_certs"
     e = rc + "[]"
@@ -72,7 +91,7 @@ def tbs_cert_list(strict_invalidity=True):
             Prim("INTEGER", P(rc), args=[C(True)]),
             Time(e + ".revocation_time"),
             Cond("ANY", [Seq([
-                Cond("some(%s.reason_code)" % e, [ext(R.OID_CRL_REASON, False, [Prim("ENUMERATED", P(rc))])]),
+                Cond("some(%s.reason_code)" % e, [ext(R.OID_CRL_REASON, False, [Prim("ENUMERATED", {"pred": crl_reason})])]),
                 Cond("some(%s.invalidity_date)" % e, [ext(R.OID_INVALIDITY, False, inv)]),
             ], unordered=True)]),
         ])])])]),
